@@ -152,11 +152,22 @@ Output file is an unaligned set of sequences in fasta.
 		fmt.Fprintf(logf, "SeqName\tBestRef\tStartPosition\tExtractedSequenceLength\tFirstStop\n")
 		phasedseqs := align.NewSeqBag(align.UNKNOWN)
 		phasedseqsaa := align.NewSeqBag(align.UNKNOWN)
+		// The phaser delivers its results in the order its worker goroutines finish, which
+		// changes from run to run when --threads > 1: results are collected first and
+		// then written in the order of the input sequences
+		results := make(map[string]align.PhasedSequence, inseqs.NbSequences())
 		for p := range phased {
 			if p.Err != nil {
 				err = p.Err
 				io.LogError(p.Err)
 				return
+			}
+			results[p.NtSeq.Name()] = p
+		}
+		for _, s := range inseqs.Sequences() {
+			p, ok := results[s.Name()]
+			if !ok {
+				continue
 			}
 			if p.Removed {
 				fmt.Fprintf(logf, "%s\tN/A\tRemoved\tN/A\n", p.NtSeq.Name())
